@@ -81,9 +81,15 @@ spec fn frames_nested(fs: Seq<RecFrame<'_>>) -> bool {
 }
 
 impl<'a> LiveEvents<'a> {
-    /// Prophecy view of the event pump: the events `next_impl` will still deliver from this state
-    /// (the pump is deterministic in the state; only `next_impl`'s contract constrains this function).
-    uninterp spec fn pump_future(&self) -> Seq<Ev<'a>>;
+    /// Prophecy view of the event pump: the events `next_impl` will still deliver from this state.
+    /// The pump is deterministic in its state; only `next_impl`'s (assumed) contract constrains this
+    /// function.  It deliberately ignores `look` and `last_location` (assumption: the pump reads
+    /// `last_location` only for error locations and for the location of the end-of-input null).
+    spec fn pump_future(&self) -> Seq<Ev<'a>> {
+        pump_of(self.parser, self.inject@, self.anchors@, self.rec_stack@, self.budget, self.alias_limits,
+                self.total_replayed_events, self.per_anchor_expansions@, self.stop_at_doc_end, self.seen_doc_end,
+                self.produced_any_in_doc, self.synthesized_null_emitted)
+    }
 
     spec fn same_but_look_and_last(&self, o: &LiveEvents<'a>) -> bool {
         &&& self.parser == o.parser && self.input == o.input
@@ -94,4 +100,55 @@ impl<'a> LiveEvents<'a> {
         &&& self.total_replayed_events == o.total_replayed_events && self.per_anchor_expansions == o.per_anchor_expansions
         &&& self.stop_at_doc_end == o.stop_at_doc_end && self.seen_doc_end == o.seen_doc_end && self.error == o.error
     }
+}
+
+// ---- skipping to the next document (C11) ----
+
+/// How many raw items `skip_to_next_document` consumes, and whether it found a document start:
+/// it stops after the first scan error, StreamEnd or DocumentStart, or when the parser is exhausted.
+spec fn skip_scan(p: Seq<Result<(Event<'_>, ParserSpan), ScanError>>) -> (int, bool)
+    decreases p.len()
+{
+    if p.len() == 0 { (0, false) }
+    else { match p[0] {
+        Err(_) => (1, false),
+        Ok((ev, _)) => if ev is DocumentStart { (1, true) } else if ev is StreamEnd { (1, false) }
+                       else { let (n, f) = skip_scan(p.skip(1)); (n + 1, f) },
+    } }
+}
+
+uninterp spec fn pump_of<'a>(parser: SaphyrParser<'a>, inject: Seq<InjectFrame>, anchors: Seq<Option<Box<[Ev<'a>]>>>,
+    rec_stack: Seq<RecFrame<'a>>, budget: Option<BudgetEnforcer>, alias_limits: AliasLimits, total: usize,
+    per_anchor: Seq<usize>, stop_at_doc_end: bool, seen_doc_end: bool, produced_any: bool, synthesized: bool) -> Seq<Ev<'a>>;
+
+/// the raw event under which a replayed event is charged to the budget (no anchor, no tag)
+spec fn replay_charge_matches(ev: Ev<'_>, raw: Event<'_>) -> bool {
+    match ev {
+        Ev::Scalar { value, style, .. } => match raw {
+            Event::Scalar(v, s, a, t) => v@ == value@ && v.byte_len() == value.byte_len() && s == style && a == 0 && t is None,
+            _ => false },
+        Ev::SeqStart { .. } => raw == Event::SequenceStart(0, None),
+        Ev::SeqEnd { .. } => raw == Event::SequenceEnd,
+        Ev::MapStart { .. } => raw == Event::MappingStart(0, None),
+        Ev::MapEnd { .. } => raw == Event::MappingEnd,
+        Ev::Taken { .. } => false,
+    }
+}
+
+/// parser contract: every item carries ordered marks below 4 GiB (precondition of location_from_span)
+spec fn span_ok(sp: ParserSpan) -> bool {
+    sp.start.offsets.chars <= sp.end.offsets.chars && sp.end.offsets.chars <= u32::MAX
+        && sp.start.line <= u32::MAX && sp.start.col < u32::MAX
+}
+spec fn spans_ok(p: Seq<Result<(Event<'_>, ParserSpan), ScanError>>) -> bool {
+    forall|i: int| 0 <= i < p.len() ==> match #[trigger] p[i] { Ok((_, sp)) => span_ok(sp), Err(_) => true }
+}
+
+proof fn lemma_skip_scan_step(p: Seq<Result<(Event<'_>, ParserSpan), ScanError>>)
+    requires p.len() > 0,
+    ensures match p[0] {
+        Err(_) => skip_scan(p) == (1int, false),
+        Ok((ev, _)) => if ev is DocumentStart { skip_scan(p) == (1int, true) } else if ev is StreamEnd { skip_scan(p) == (1int, false) }
+                       else { skip_scan(p) == (skip_scan(p.skip(1)).0 + 1, skip_scan(p.skip(1)).1) } },
+{
 }
